@@ -4,11 +4,77 @@ import copy
 import hashlib
 import itertools
 import json
+import os
+import unicodedata
 
 from harness import core, facts
-from harness.jsoncoq import json_to_coq
 
 NAMES_INTERNAL = ['name', 'values', 'metadata', 'patch', 'patches', 'labels', 'digests', 'version']
+
+# ---------------------------------------------------------------------------------------
+# text.  JSON strings are arbitrary Unicode; the digest is taken of the UTF-8 bytes of the dump, names are compared
+# code point by code point.  The Coq model represents a string by its UTF-8 bytes (Coq `string` = list of bytes;
+# two Python strings are equal iff their UTF-8 encodings are, and byte order = code-point order for the key sort),
+# so text that is canonically / compatibility-equivalent, differs in case, or only looks the same is DIFFERENT text.
+UTEXT = ['\u00b5_sig',          # MICRO SIGN                      (NFKC -> U+03BC)
+         '\u03bc_sig',          # GREEK SMALL LETTER MU
+         'SR_m\u00b2',          # SUPERSCRIPT TWO                 (NFKC -> '2')
+         'caf\u00e9',           # precomposed e-acute             (NFD  -> e + U+0301)
+         'cafe\u0301',          # e + COMBINING ACUTE ACCENT      (NFC  -> U+00E9)
+         '\ufb01t',             # LATIN SMALL LIGATURE FI         (NFKC -> 'fi')
+         '\u212b',              # ANGSTROM SIGN                   (NFC  -> U+00C5)
+         '\u2126_b',            # OHM SIGN                        (NFC  -> U+03A9)
+         '\uff21\uff11',        # fullwidth 'A1'                  (NFKC -> 'A1')
+         'stra\u00dfe',         # sharp s                         (casefold -> 'ss')
+         'a\u00a0b',            # NO-BREAK SPACE                  (NFKC -> ' ')
+         'x\u200by',            # ZERO WIDTH SPACE (no normal form removes it)
+         '\u4fe1\u53f7',        # CJK
+         'q\u0323\u0307',       # two combining marks             (NFC reorders nothing, NFD order is canonical)
+         'q\u0307\u0323',       # the same marks in the other order (canonically equivalent to the previous)
+         '\U0001d707',          # MATHEMATICAL ITALIC SMALL MU, outside the BMP (NFKC -> U+03BC)
+         '\U0001f600',          # emoji, outside the BMP
+         'Signal', ' pad ', 'tab\there', 'quote"back\\slash', '']
+HOMOGLYPH = {'a': '\u0430', 'e': '\u0435', 'o': '\u043e', 'c': '\u0441', 'p': '\u0440', 'A': '\u0391', 'B': '\u0392', 'S': '\u0405', 'x': '\u0445'}
+
+
+def text_variants(s):
+    """strings that differ from s but are equivalent to it under some notion other than code-point equality"""
+    out = []
+    for t in [unicodedata.normalize(f, s) for f in ('NFC', 'NFD', 'NFKC', 'NFKD')] + [
+            s.casefold(), s.lower(), s.upper(), s.swapcase(), s.strip(), s + ' ', ' ' + s, s + '\u200b', s + '\u0301',
+            ''.join(HOMOGLYPH.get(c, c) for c in s), s.replace(' ', '\u00a0'), s.encode('utf8').decode('latin-1')]:
+        if t != s and t not in out:
+            out.append(t)
+    return out
+
+
+def ucstr(s):
+    """Coq term for the UTF-8 byte string of s"""
+    if all(32 <= ord(c) < 127 for c in s):
+        return core.cstr(s)
+    return '(ub [%s]%%nat)' % ';'.join(str(b) for b in s.encode('utf8'))
+
+
+UB = 'Definition ub (l : list nat) : string := fold_right (fun n s => String (Ascii.ascii_of_nat n) s) EmptyString l.\n'
+
+
+def json_to_coq(j):
+    """python JSON value -> Coq term of type PV.Json.json (as harness/jsoncoq.py, any Unicode text)"""
+    if j is None:
+        return 'JNull'
+    if isinstance(j, bool):
+        return '(JBool %s)' % core.cbool(j)
+    if isinstance(j, int):
+        return '(JNum false %s)' % core.q(j)
+    if isinstance(j, float):
+        return '(JNum true %s)' % core.q(j)
+    if isinstance(j, str):
+        return '(JStr %s)' % ucstr(j)
+    if isinstance(j, (list, tuple)):
+        return '(JArr %s)' % core.clist(j, json_to_coq)
+    if isinstance(j, dict):
+        return '(JObj %s)' % core.clist(j.items(), lambda kv: '(%s, %s)' % (ucstr(kv[0]), json_to_coq(kv[1])))
+    raise TypeError(type(j))
 
 
 # ---------------------------------------------------------------------------------------
@@ -48,6 +114,12 @@ def gen_doc(rng):
     npatch = rng.choice([1, 2, 3, 4, 6])
     namepool = NAMES_INTERNAL[:rng.choice([0, 2, 2, 4, 8])] + ['p%d' % i for i in range(rng.choice([2, 4, 8]))]
     valpool = [0, 1, 1.0, 2, 2.5, -1, 'a', 'b', 100, 1e3]
+    if rng.random() < 0.35:
+        # string values are arbitrary text (the schema restricts patch NAMES to [a-zA-Z0-9_]+): non-ASCII values together with
+        # texts equivalent to them, and names differing in case only -- all of them pairwise distinct keys
+        base = rng.sample(UTEXT[:17], 2)
+        valpool = valpool[:3] + base + [rng.choice(text_variants(b)) for b in base] + valpool[3:]
+        namepool += ['Sig_1', 'sig_1', 'SIG_1', 'P0']
     patches = []
     for _ in range(npatch):
         n = rng.choice(namepool)
@@ -80,6 +152,15 @@ def lookup_keys(rng, doc):
         ks.append(('list', list(p['metadata']['values'])))
     for s in NAMES_INTERNAL[:4] + ['nope', '']:
         ks.append(('name', s))
+    # texts equivalent to a patch name / a string value (other normal form, other case, look-alike) are other keys
+    for p in doc['patches'][:3]:
+        vs = [p['metadata']['name'].upper(), p['metadata']['name'].swapcase()]
+        if vs:
+            ks.append(('name', rng.choice(vs)))
+        for i, v in enumerate(p['metadata']['values']):
+            if isinstance(v, str) and text_variants(v):
+                ks.append(('tuple', p['metadata']['values'][:i] + [rng.choice(text_variants(v))] + p['metadata']['values'][i + 1:]))
+                break
     ks.append(('tuple', [rng.choice([0, 1, 7.5, 'a']) for _ in doc['metadata']['labels']]))
     ks.append(('tuple', []))
     ks.append(('other', rng.randrange(5)))
@@ -108,13 +189,13 @@ def impl_doc(doc, keys):
 
 
 def pv(v):
-    return '(PStr %s)' % core.cstr(v) if isinstance(v, str) else '(PNum %s)' % core.q(v)
+    return '(PStr %s)' % ucstr(v) if isinstance(v, str) else '(PNum %s)' % core.q(v)
 
 
 def model_expr(doc, keys):
     ps = core.clist(doc['patches'], lambda p: '{| ps_name := %s; ps_values := %s; ps_ops := [] |}' % (
-        core.cstr(p['metadata']['name']), core.clist(p['metadata']['values'], pv)))
-    ks = core.clist(keys, lambda kk: ('(KName %s)' % core.cstr(kk[1])) if kk[0] == 'name' else
+        ucstr(p['metadata']['name']), core.clist(p['metadata']['values'], pv)))
+    ks = core.clist(keys, lambda kk: ('(KName %s)' % ucstr(kk[1])) if kk[0] == 'name' else
                     ('(KOther %d)' % kk[1]) if kk[0] == 'other' else '(KVals %s)' % core.clist(kk[1], pv))
     return 'run_doc patchset_init_keys %d %s %s' % (len(doc['metadata']['labels']), ps, ks)
 
@@ -122,7 +203,7 @@ def model_expr(doc, keys):
 HEADER = '''From Coq Require Import ZArith QArith Qcanon String List.
 Require Import PV.Num PV.Run PV.Json PV.PatchSet PV.gen.FactsC17.
 Import ListNotations. Open Scope string_scope.
-Definition code_got (g : got) : Z := match g with GPatch i => Z.of_nat i | GBook => (-2)%Z | GLookupError => (-1)%Z end.
+''' + UB + '''Definition code_got (g : got) : Z := match g with GPatch i => Z.of_nat i | GBook => (-2)%Z | GLookupError => (-1)%Z end.
 Definition run_doc init n ps ks : list Z :=
   match construct init n ps with
   | inl t => 0%Z :: map (fun k => code_got (getitem t k)) ks
@@ -140,13 +221,18 @@ def decode_model(res):
 # ---------------------------------------------------------------------------------------
 def ws_small(rng):
     """a small JSON document with nested objects/arrays, ints and floats"""
+    uni = rng.random() < 0.5          # half of the documents carry non-ASCII text (values and keys)
+    keys = ['a', 'b', 'c', 'name', 'z1', 'B'] + (rng.sample(UTEXT[:17], 3) if uni else [])
+
     def val(d):
         r = rng.random()
         if d <= 0 or r < 0.35:
-            return rng.choice([0, 1, 1.0, 2.5, -3, 'a', 'b', True, None, 10])
+            if uni and rng.random() < 0.45:
+                return rng.choice(UTEXT)
+            return rng.choice([0, 1, 1.0, 2.5, -3, 'a', 'b', True, None, 10, 0.0, '', 1e-7, 1e16])
         if r < 0.65:
             return [val(d - 1) for _ in range(rng.randrange(1, 4))]
-        return {k: val(d - 1) for k in rng.sample(['a', 'b', 'c', 'name', 'z1', 'B'], rng.randrange(1, 4))}
+        return {k: val(d - 1) for k in rng.sample(keys, rng.randrange(1, 4))}
     return {k: val(3) for k in rng.sample(['channels', 'observations', 'measurements', 'version', 'x'], rng.randrange(2, 5))}
 
 
@@ -175,6 +261,64 @@ def leaves(j, path=()):
         yield path
 
 
+def key_paths(j, path=()):
+    """paths of all object members (for renaming a key)"""
+    if isinstance(j, dict):
+        for k, v in j.items():
+            yield path + (k,)
+            yield from key_paths(v, path + (k,))
+    elif isinstance(j, list):
+        for i, v in enumerate(j):
+            yield from key_paths(v, path + (i,))
+
+
+def get_at(j, path):
+    for p in path:
+        j = j[p]
+    return j
+
+
+def set_at(j, path, new):
+    """copy of j with the leaf at path replaced"""
+    j = copy.deepcopy(j)
+    get_at(j, path[:-1])[path[-1]] = new
+    return j
+
+
+def rename_key(j, path, new):
+    """copy of j with the member key at path renamed (position kept); None when the new key is already taken"""
+    j = copy.deepcopy(j)
+    d = get_at(j, path[:-1])
+    if new in d:
+        return None
+    items = [(new if k == path[-1] else k, v) for k, v in d.items()]
+    d.clear()
+    d.update(items)
+    return j
+
+
+def text_corruptions(rng, j, cap):
+    """every string leaf / member key that has equivalent-but-different spellings, replaced by one of them (at most cap cases,
+    non-ASCII text first): (document, tag)"""
+    cands = []
+    for p in leaves(j):
+        if p and isinstance(get_at(j, p), str) and text_variants(get_at(j, p)):
+            cands.append(('value', p, get_at(j, p)))
+    for p in key_paths(j):
+        if len(p) > 1 and text_variants(p[-1]):
+            cands.append(('key', p, p[-1]))
+    rng.shuffle(cands)
+    cands.sort(key=lambda c: c[2].isascii())
+    out = []
+    for what, p, old in cands[:cap]:
+        vs = text_variants(old)
+        new = rng.choice(vs[:4]) if rng.random() < 0.7 else rng.choice(vs)      # the four normal forms come first
+        doc = set_at(j, p, new) if what == 'value' else rename_key(j, p, new)
+        if doc is not None:
+            out.append((doc, 'corrupt-text-%s' % what + '/' + '/'.join(map(str, p))))
+    return out
+
+
 def corrupt(rng, j, path):
     j = copy.deepcopy(j)
     cur = j
@@ -188,7 +332,7 @@ def corrupt(rng, j, path):
     elif isinstance(old, float):
         new = rng.choice([int(old) if old == int(old) else old + 0.5, old * 2 + 1])
     elif isinstance(old, str):
-        new = old + 'x'
+        new = rng.choice([old + 'x'] + text_variants(old))
     elif old is None:
         new = 0
     else:
@@ -215,16 +359,125 @@ def ref_digest(ws, alg):
     return getattr(hashlib, alg)(json.dumps(ws, sort_keys=True, ensure_ascii=False).encode('utf8')).hexdigest()
 
 
+def impl_digest(ws, alg):
+    import pyhf
+    try:
+        return pyhf.utils.digest(copy.deepcopy(ws), algorithm=alg)
+    except Exception as e:
+        return 'raised ' + core.exc_enum(e)
+
+
+def has_non_ascii(j):
+    return not json.dumps(j, ensure_ascii=False).isascii()
+
+
+def corpus_cases(kind):
+    d = os.path.join(core.VERIF, 'corpus', 'C17')
+    out = []
+    if os.path.isdir(d):
+        for fn in sorted(os.listdir(d)):
+            if fn.endswith('.json'):
+                body = json.load(open(os.path.join(d, fn)))
+                out += [dict(c, corpus=fn) for c in body.get('cases', [body]) if c.get('kind') == kind]
+    return out
+
+
 # ---------------------------------------------------------------------------------------
+def pointers(j, path=''):
+    """JSON pointers of every node below the root"""
+    if isinstance(j, dict):
+        for k, v in j.items():
+            pp = path + '/' + k.replace('~', '~0').replace('/', '~1')
+            yield pp
+            yield from pointers(v, pp)
+    elif isinstance(j, list):
+        for i, v in enumerate(j):
+            yield '%s/%d' % (path, i)
+            yield from pointers(v, '%s/%d' % (path, i))
+
+
+def resolve(j, ptr):
+    for tok in ptr.split('/')[1:]:
+        tok = tok.replace('~1', '/').replace('~0', '~')
+        j = j[int(tok)] if isinstance(j, list) else j[tok]
+    return j
+
+
+def random_ops(rng, ws):
+    """an RFC-6902 operation list over the pointers of ws (all six operations; `from` and `path` anywhere in the document, also in
+    different top-level sections; now and then a pointer that does not resolve).  What it must produce is decided by jsonpatch on a copy."""
+    ops = []
+    cur = copy.deepcopy(ws)
+    for _ in range(rng.choice([1, 1, 2, 3])):
+        ptrs = list(pointers(cur))
+        arrays = [p for p in ptrs if isinstance(resolve(cur, p), list)]
+        kind = rng.choice(['add', 'remove', 'replace', 'move', 'move', 'copy', 'test'])
+        path = rng.choice(ptrs)
+        if rng.random() < 0.06:
+            path += '/nope'
+        if kind in ('move', 'copy'):
+            src = rng.choice(ptrs)
+            dst = rng.choice(arrays) + '/' + rng.choice(['-', '0']) if rng.random() < 0.6 else path
+            if kind == 'move' and (dst + '/').startswith(src + '/'):
+                continue                                   # a location cannot be moved into one of its children
+            op = {'op': kind, 'from': src, 'path': dst}
+        elif kind == 'remove':
+            op = {'op': 'remove', 'path': path}
+        elif kind == 'test':
+            try:
+                v = copy.deepcopy(resolve(cur, path))
+            except Exception:
+                v = 1
+            op = {'op': 'test', 'path': path, 'value': v if rng.random() < 0.8 else 'something else'}
+        else:
+            if kind == 'add' and rng.random() < 0.5:
+                path = rng.choice(arrays) + '/-'
+            try:
+                like = resolve(cur, path if not path.endswith('/-') else path[:-2] + '/0')
+            except Exception:
+                like = 1.0
+            v = copy.deepcopy(like) if rng.random() < 0.5 else rng.choice([1.0, 7, 'new', [2.0], {'name': 'n', 'data': [1.0], 'modifiers': []}])
+            op = {'op': kind, 'path': path, 'value': v}
+        ops.append(op)
+        try:
+            import jsonpatch
+            cur = jsonpatch.JsonPatch([copy.deepcopy(op)]).apply(cur)
+        except Exception:
+            break
+    return ops
+
+
+def relabel_text(rng, ws):
+    """the same workspace with non-ASCII names (channel, signal sample, modifiers, measurement, POI)"""
+    m = {'singlechannel': rng.choice(['SR_m\u00b2', 'caf\u00e9', 'cafe\u0301', '\uff21\uff11']), 'signal': rng.choice(['\ufb01t', '\u4fe1\u53f7']),
+         'mu': rng.choice(['\u00b5', '\u03bc', '\U0001d707']), 'uncorr_bkguncrt': rng.choice(['\u212b_unc', 'q\u0323\u0307']),
+         'm': rng.choice(['m\u00e9as', 'me\u0301as'])}
+
+    def go(j):
+        if isinstance(j, str):
+            return m.get(j, j)
+        if isinstance(j, list):
+            return [go(x) for x in j]
+        if isinstance(j, dict):
+            return {k: go(v) for k, v in j.items()}
+        return j
+    return go(ws)
+
+
 def apply_cases(rng, n):
     import pyhf
     out = []
+    for c in corpus_cases('apply'):
+        out.append(dict(ws=c['ws'], doc=copy.deepcopy(c['doc0']), doc0=c['doc0'], key=tuple(c['key']), wrong_digest=False))
     for i in range(n):
         nb = rng.choice([1, 2, 3])
         model = pyhf.simplemodels.uncorrelated_background([5.0 + i] * nb, [50.0] * nb, [7.0] * nb)
         ws = {'channels': copy.deepcopy(model.spec['channels']),
               'observations': [{'name': 'singlechannel', 'data': [float(rng.randrange(40, 70)) for _ in range(nb)]}],
               'measurements': [{'name': 'm', 'config': {'poi': 'mu', 'parameters': []}}], 'version': '1.0.0'}
+        if rng.random() < 0.4:
+            ws = relabel_text(rng, ws)
+        poi = ws['measurements'][0]['config']['poi']
         opsets = {
             'sig2': [{'op': 'replace', 'path': '/channels/0/samples/0/data', 'value': [float(rng.randrange(1, 9))] * nb}],
             'addsample': [{'op': 'add', 'path': '/channels/0/samples/-', 'value':
@@ -232,12 +485,18 @@ def apply_cases(rng, n):
             'rm_then_test': [{'op': 'test', 'path': '/version', 'value': '1.0.0'}, {'op': 'remove', 'path': '/channels/0/samples/1/modifiers/0'}],
             'bad_test': [{'op': 'test', 'path': '/version', 'value': '2'}],
             'invalidates': [{'op': 'remove', 'path': '/channels'}],
-            'move': [{'op': 'copy', 'from': '/observations/0/data', 'path': '/channels/0/samples/0/data'}],
+            'copy_across': [{'op': 'copy', 'from': '/observations/0/data', 'path': '/channels/0/samples/0/data'}],
+            # `move` takes its value out of one place of the document: the source may lie in a section no `path` mentions
+            'move_across': [{'op': 'move', 'from': '/measurements/0/config/parameters', 'path': '/channels/0/samples/0/modifiers/0/data'},
+                            {'op': 'add', 'path': '/measurements/0/config/parameters', 'value': []}][:rng.choice([1, 2])],
+            'move_leaf': [{'op': 'move', 'from': '/observations/0/data/0', 'path': '/channels/0/samples/1/data/-'}],
+            'move_within': [{'op': 'move', 'from': '/channels/0/samples/1', 'path': '/channels/0/samples/0'}],
+            'random_a': random_ops(rng, ws), 'random_b': random_ops(rng, ws),
             # a later operation writes INSIDE a value that an earlier operation of the same patch added
             'grow_added': [{'op': 'add', 'path': '/channels/0/samples/-', 'value': {'name': 'extra', 'data': [1.0] * nb, 'modifiers': []}},
                            {'op': 'copy', 'from': '/channels/0/samples/0/modifiers/0', 'path': '/channels/0/samples/2/modifiers/-'}],
-            'edit_replaced': [{'op': 'replace', 'path': '/measurements/0/config', 'value': {'poi': 'mu', 'parameters': []}},
-                              {'op': 'add', 'path': '/measurements/0/config/parameters/-', 'value': {'name': 'mu', 'bounds': [[0.0, 5.0]]}}],
+            'edit_replaced': [{'op': 'replace', 'path': '/measurements/0/config', 'value': {'poi': poi, 'parameters': []}},
+                              {'op': 'add', 'path': '/measurements/0/config/parameters/-', 'value': {'name': poi, 'bounds': [[0.0, 5.0]]}}],
         }
         names = rng.sample(sorted(opsets), 3)
         if rng.random() < 0.5 and not any(n_ in names for n_ in ('grow_added', 'edit_replaced')):
@@ -268,7 +527,7 @@ def impl_apply_on(ps, case):
         got = (core.exc_enum(e), None)
     exp = None
     for a, d in doc0['metadata']['digests'].items():
-        if ref_digest(ws, a) != d:
+        if ref_digest(before, a) != d:         # `before`: the workspace as it was handed over (the call may have damaged ws)
             exp = ('PatchSetVerificationError', None)
             break
     if exp is None:
@@ -278,7 +537,7 @@ def impl_apply_on(ps, case):
             exp = ('InvalidPatchLookup', None)
         else:
             try:
-                patched = jsonpatch.JsonPatch(sel[0]['patch']).apply(copy.deepcopy(ws))
+                patched = jsonpatch.JsonPatch(sel[0]['patch']).apply(copy.deepcopy(before))
                 exp = ('ok', json.loads(json.dumps(dict(pyhf.Workspace(patched)))))
             except Exception as e:
                 exp = (core.exc_enum(e), None)
@@ -301,7 +560,7 @@ def impl_apply(case):
     # what the property promises, computed without pyhf.PatchSet: verify (reference digests), look up, jsonpatch, Workspace
     exp = None
     for a, d in doc0['metadata']['digests'].items():
-        if ref_digest(ws, a) != d:
+        if ref_digest(before, a) != d:         # `before`: the workspace as it was handed over (the call may have damaged ws)
             exp = ('PatchSetVerificationError', None)
             break
     if exp is None:
@@ -311,7 +570,7 @@ def impl_apply(case):
             exp = ('InvalidPatchLookup', None)
         else:
             try:
-                patched = jsonpatch.JsonPatch(sel[0]['patch']).apply(copy.deepcopy(ws))
+                patched = jsonpatch.JsonPatch(sel[0]['patch']).apply(copy.deepcopy(before))
                 exp = ('ok', json.loads(json.dumps(dict(pyhf.Workspace(patched)))))
             except Exception as e:
                 exp = (core.exc_enum(e), None)
@@ -439,29 +698,53 @@ def run(ctx):
     # ---- correspondence 2: verify <-> sameness of documents (jsame evaluated in Coq) ----
     nver = ctx.n(40, 400)
     vcases = []
+    for c in corpus_cases('verify'):     # minimized past failures first
+        vcases.append((c['ws0'], {a: ref_digest(c['ws0'], a) for a in c['algs']}, c['ws'], c.get('tag', 'corpus')))
     for _ in range(nver):
         ws0 = ws_small(rng)
-        algs = rng.choice([['md5'], ['sha256'], ['md5', 'sha256'], ['sha256', 'md5']])
+        algs = rng.choice([['md5'], ['sha256'], ['md5', 'sha256'], ['sha256', 'md5']])      # the algorithms a patch set may list
         digs = {a: ref_digest(ws0, a) for a in algs}
         vcases.append((ws0, digs, shuffle_keys(rng, ws0), 'shuffle'))
         ls = list(leaves(ws0))
         for p in (ls if not ctx.quick else rng.sample(ls, min(len(ls), 4))):
             if p:
                 vcases.append((ws0, digs, corrupt(rng, ws0, p), 'corrupt' + '/'.join(map(str, p))))
+        # text replaced by an equivalent spelling (other normal form, other case, look-alike), as a value and as a member key
+        for doc, tag in text_corruptions(rng, ws0, ctx.n(4, 40)):
+            vcases.append((ws0, digs, doc, tag))
         # a digest wrong for exactly one listed algorithm (at any position) must fail
         for pos, a in enumerate(algs):
             digs2 = dict(digs)
             digs2[a] = '0' * len(digs[a])
             vcases.append((ws0, digs2, ws0, 'wrong-digest-at-%d-of-%d' % (pos, len(algs))))
     vimpl = [impl_verify(dg, copy.deepcopy(ws)) for ws0, dg, ws, _ in vcases]
-    vhead = HEADER.replace('Open Scope string_scope.', 'Open Scope string_scope.')
+    vhead = HEADER
     try:
         vres = core.coq_eval(ctx, 'verify', vhead, ['jsame %s %s' % (json_to_coq(ws0), json_to_coq(ws)) for ws0, dg, ws, _ in vcases], shard=200)
     except core.CoqEvalError as e:
         vres = None
         tie = tie or ('model evaluation failed: %s' % str(e)[-800:])
-    vstats = dict(verified=0, refused=0)
+    vstats = dict(verified=0, refused=0, non_ascii=0, text_corruptions=0, digests_compared=0)
+    # the digest itself: hash of the UTF-8 bytes of the key-sorted dump (what a recorded digest is made with), for every
+    # document of the verify cases and every algorithm they list
+    seen_dig = set()
+    for ws0, dg, ws, kind in vcases:
+        for doc in (ws0, ws):
+            for a in list(dg) + [rng.choice(['sha1', 'sha512', 'sha3_256', 'blake2b', 'sha384'])]:
+                k = (a, json.dumps(doc, sort_keys=True))
+                if k in seen_dig:
+                    continue
+                seen_dig.add(k)
+                vstats['digests_compared'] += 1
+                got, exp = impl_digest(doc, a), ref_digest(doc, a)
+                if got != exp:
+                    ctx.violation('digest:not-hash-of-canonical-json:%s' % ('non-ascii' if has_non_ascii(doc) else 'ascii'),
+                                  'pyhf.utils.digest(doc, %r) = %s, the %s of the key-sorted UTF-8 JSON dump is %s' % (a, got, a, exp),
+                                  dict(kind='digest', ws=doc, algorithm=a, impl=got, expected=exp, theorem='C17_verify_iff (digest = H alg (canon doc))'))
+                    found_concrete = True
     for i, ((ws0, dg, ws, kind), (r, mut)) in enumerate(zip(vcases, vimpl)):
+        vstats['non_ascii'] += has_non_ascii(ws0)
+        vstats['text_corruptions'] += kind.startswith('corrupt-text')
         if mut:
             ctx.violation('verify-mutates-input', 'verify modified the workspace', dict(kind='verify', ws0=ws0, ws=ws, digests=dg))
             found_concrete = True
@@ -470,10 +753,25 @@ def run(ctx):
         expected = 'ok' if (same and recorded_ok) else 'PatchSetVerificationError'
         vstats['verified' if r == 'ok' else 'refused'] += 1
         if r != expected:
-            ctx.violation('verify:%s-vs-%s:%s' % (r, expected, kind.split('/')[0][:7]),
+            ctx.violation('verify:%s-vs-%s:%s' % (r, expected, kind.split('/')[0][:7] if not kind.startswith('corrupt-text') else 'equivalent-text'),
                           'verify gives %s where the digest rule gives %s (%s)' % (r, expected, kind),
                           dict(kind='verify', ws0=ws0, ws=ws, digests=dg, impl=r, expected=expected, theorem='C17_verify_recorded_iff_same'))
             found_concrete = True
+        # the same question with the digests recorded by the implementation itself (a patch set written with `pyhf digest`):
+        # verification of ws against the digests of ws0 succeeds iff the two are the same document, whatever the digest function does
+        if recorded_ok and not kind.startswith('wrong-digest'):
+            own = {a: impl_digest(ws0, a) for a in dg}
+            tag = kind.split('/')[0][:7] if not kind.startswith('corrupt-text') else 'equivalent-text'
+            if all(len(d) == len(dg[a]) for a, d in own.items()):
+                r2, _ = impl_verify(own, copy.deepcopy(ws))
+                exp2 = 'ok' if same else 'PatchSetVerificationError'
+                vstats['own_digest_verifications'] = vstats.get('own_digest_verifications', 0) + 1
+                if r2 != exp2:
+                    ctx.violation('verify-own-digests:%s-vs-%s:%s' % (r2, exp2, tag),
+                                  'against the digests pyhf.utils.digest gives for one document, verify of %s gives %s (%s)' % (
+                                      'the same document' if same else 'a DIFFERENT document', r2, kind),
+                                  dict(kind='verify', ws0=ws0, ws=ws, digests=own, impl=r2, expected=exp2, theorem='C17_digest_value_sensitive / C17_digest_key_order_insensitive'))
+                    found_concrete = True
         if len(sigs) < 100000:
             sigs.add('v' + json.dumps([kind, ws], sort_keys=True)[:200])
 
@@ -481,11 +779,15 @@ def run(ctx):
     acases = apply_cases(rng, ctx.n(30, 300))
     astats = {}
     for c in acases:
+        handed = copy.deepcopy(c['ws'])
         got, exp, mut = impl_apply(c)
         astats[got[0]] = astats.get(got[0], 0) + 1
         if mut:
-            ctx.violation('apply-mutates-input', 'apply modified the background workspace', dict(kind='apply', **c))
+            ctx.violation('apply-mutates-input', 'apply modified the background workspace',
+                          dict(kind='apply', impl=dict(outcome=got[0], workspace_after_the_call=c['ws']), expected='workspace untouched',
+                               theorem='C17_apply_spec', **dict(c, ws=handed)))
             found_concrete = True
+            c['ws'] = handed
         if got != exp:
             ctx.violation('apply:%s-vs-%s' % (got[0], exp[0]), 'apply returns %s, verify-lookup-patch gives %s' % (got[0], exp[0]),
                           dict(kind='apply', impl=got, expected=exp, theorem='C17_apply_spec', **c))
@@ -517,18 +819,25 @@ def run(ctx):
         hist = []
         leaf = ('observations', 0, 'data', 0)
         orig = ws['observations'][0]['data'][0]
+        orig_name = ws['observations'][0]['name']
+        ws_pristine = copy.deepcopy(ws)
         for step in range(rng.choice([4, 6, 8])):
             op = rng.choice(['apply', 'apply', 'corrupt', 'restore', 'verify', 'lookup-miss'])
             hstats['steps'] += 1
             if op == 'corrupt':
-                ws['observations'][0]['data'][0] = orig + 1.0
-                hist.append(['corrupt'])
+                if rng.random() < 0.5:      # ... of a number, or of a text by an equivalent spelling of it
+                    ws['observations'][0]['data'][0] = orig + 1.0
+                    hist.append(['corrupt'])
+                else:
+                    ws['observations'][0]['name'] = rng.choice(text_variants(orig_name)[:4])
+                    hist.append(['corrupt-text', ws['observations'][0]['name']])
                 continue
             if op == 'restore':
                 ws['observations'][0]['data'][0] = orig
+                ws['observations'][0]['name'] = orig_name
                 hist.append(['restore'])
                 continue
-            good = ws['observations'][0]['data'][0] == orig
+            good = ws['observations'][0]['data'][0] == orig and ws['observations'][0]['name'] == orig_name
             if op == 'lookup-miss':
                 try:
                     ps['no-such-patch']
@@ -550,10 +859,16 @@ def run(ctx):
                 r, exp = got[0], ex[0]
                 if got != ex:
                     r = r + ':different-result'
+                if mut:
+                    hist.append([op, r, key])
+                    ctx.violation('apply-mutates-input', 'apply modified the background workspace',
+                                  dict(kind='history', ws=ws_pristine, doc=c['doc0'], history=hist, expected='workspace untouched', theorem='C17_apply_spec'))
+                    found_concrete = True
+                    break
             hist.append([op, r] + ([key] if op == 'apply' else []))
             if r != exp:
                 ctx.violation('history:%s:%s-vs-%s' % (op, r, exp), 'after the history %r, %s gives %s where the stateless rule gives %s' % (hist[:-1], op, r, exp),
-                              dict(kind='history', ws=c['ws'], doc=c['doc0'], history=hist, expected=exp, theorem='C17_verify_iff (apply/verify depend on their arguments only)'))
+                              dict(kind='history', ws=ws_pristine, doc=c['doc0'], history=hist, expected=exp, theorem='C17_verify_iff (apply/verify depend on their arguments only)'))
                 found_concrete = True
                 break
         hstats['histories'] += 1
@@ -586,10 +901,13 @@ def replay(body):
         print(json.dumps(impl_doc(body['doc'], [tuple(k) for k in body['keys']]), indent=1, default=str))
     elif kind == 'verify':
         print(impl_verify(body['digests'], body['ws']))
+    elif kind == 'digest':
+        print(json.dumps(dict(impl=impl_digest(body['ws'], body['algorithm']), hash_of_canonical_json=ref_digest(body['ws'], body['algorithm']))))
     elif kind == 'apply':
         if body.get('doc0'):
             body = dict(body, doc=copy.deepcopy(body['doc0']))
-        print(impl_apply(body)[:2])
+        got, exp, mut = impl_apply(body)
+        print(json.dumps(dict(impl=got, expected=exp, input_workspace_modified=mut), default=str)[:3000])
     elif kind == 'apply-repeat':
         import pyhf
         doc = copy.deepcopy(body['doc0'])
@@ -604,13 +922,16 @@ def replay(body):
         doc0 = body['doc']
         ps = pyhf.PatchSet(copy.deepcopy(doc0))
         ws = copy.deepcopy(body['ws'])
-        orig = None
+        orig = ws['observations'][0]['data'][0]
+        orig_name = ws['observations'][0]['name']
         for h in body['history']:
             if h[0] == 'corrupt':
-                orig = ws['observations'][0]['data'][0] if orig is None else orig
                 ws['observations'][0]['data'][0] = orig + 1.0
-            elif h[0] == 'restore' and orig is not None:
+            elif h[0] == 'corrupt-text':
+                ws['observations'][0]['name'] = h[1]
+            elif h[0] == 'restore':
                 ws['observations'][0]['data'][0] = orig
+                ws['observations'][0]['name'] = orig_name
             elif h[0] == 'apply':
                 got, ex, mut = impl_apply_on(ps, dict(ws=ws, doc=doc0, doc0=doc0, key=('name', h[2] if len(h) > 2 else doc0['patches'][0]['metadata']['name'])))
                 print('apply ->', got[0], ' stateless rule ->', ex[0], ' same result:', got == ex)
